@@ -63,7 +63,7 @@ void generate(Rng& r, Workload& w, int tier) {
     int v = int(r.below(NVAR));
     w.cfg = {v, int64_t(r.below(2))};
     const bool suffix = VARIANTS[v].set == c04::SK_SUFFIX;
-    int nmax = tier ? 600 : 300;
+    int nmax = tier ? 1500 : 300;
     int n;
     uint64_t k = r.below(10);
     if (k < 2) n = int(r.range(0, 6));
